@@ -9,6 +9,10 @@ CHECKS = {
              text="Bounded-exhaustive: TLC checks the C04 clauses on the specification; the real store's reachable graph over the full call alphabet (small capacities/amounts) is enumerated and TLC evaluates every clause on every recorded edge with history monitors carried by TLC; spec behaviours are replayed into the code.",
              note="Trusted: TLC/SANY, the adapter's projection through the public getters (dedup-audited), CPython. Bounded to small integer capacities and amounts; float state thresholds admitted both ways at exact boundaries.",
              ref="DESIGN.md section 4 C04"),
+ "C09": dict(technique="TLA+ spec (Telomere.tla) model-checked with TLC; real Telomere explored by BFS under a virtual clock and owner-aware locks, every edge judged by TLC (Trace_Telomere.tla); TLC -simulate behaviours replayed",
+             text="Bounded-exhaustive: all call sequences to depth 7 over the full alphabet for a grid of small configurations on the real object; TLC evaluates every C09 clause (legal atomic phase changes from the callback stream, Hayflick monitor, absorbing states, every call returns) on every edge; the spec itself is model-checked against the same clauses.",
+             note="Trusted: TLC/SANY, adapter projection via get_phase/get_status/get_statistics/get_age (dedup-audited), virtual clock and lock substitution by module namespace. A self-deadlock is observed through the owner-aware lock, not by waiting. reset() starts a new incarnation; renew(0) outside the alphabet.",
+             ref="DESIGN.md section 4 C09"),
 }
 NOT_APPLICABLE = []
 
